@@ -38,9 +38,10 @@ def programs(tier):
     reg = corpus.registry_ids(include_f64=False)
     a1 = families.ids("A1", "quick")
     extra = families.ids("A5", "quick")[:12] + families.ids("A2", "quick")[:12]
+    special = [i for i in reg if any(k in i.lower() for k in ("opset", "float16", "bfloat16", "bf16", "f16", "swish", "silu", "rms", "attention", "gelu", "cumprod", "bitcast"))]
     if tier == "quick":
-        return reg[::11] + a1[::5] + extra
-    return reg[::2] + a1 + extra
+        return sorted(set(reg[::11] + special[::2])) + a1[::5] + extra
+    return sorted(set(reg[::2] + special)) + a1 + extra
 
 
 def list_jobs(tier):
@@ -57,6 +58,51 @@ def schema_problems(model, declared):
     probs = []
     imports = {imp.domain or "": imp.version for imp in model.opset_import}
     fn_keys = {(f.domain, f.name) for f in model.functions}
+
+    TYPE_STR = {v: "tensor(" + k.lower().replace("float", "float").replace("bool", "bool") + ")" for k, v in onnx.TensorProto.DataType.items()}
+    TYPE_STR.update({onnx.TensorProto.FLOAT: "tensor(float)", onnx.TensorProto.DOUBLE: "tensor(double)", onnx.TensorProto.FLOAT16: "tensor(float16)", onnx.TensorProto.BFLOAT16: "tensor(bfloat16)", onnx.TensorProto.BOOL: "tensor(bool)", onnx.TensorProto.STRING: "tensor(string)"})
+    for nm in ("INT8", "INT16", "INT32", "INT64", "UINT8", "UINT16", "UINT32", "UINT64", "COMPLEX64", "COMPLEX128"):
+        TYPE_STR[getattr(onnx.TensorProto, nm)] = f"tensor({nm.lower()})"
+    types = {}
+
+    def collect_types(g):
+        for vi in list(g.input) + list(g.output) + list(g.value_info):
+            if vi.type.tensor_type.elem_type:
+                types.setdefault(vi.name, vi.type.tensor_type.elem_type)
+        for t in g.initializer:
+            types.setdefault(t.name, t.data_type)
+        for n in g.node:
+            if n.op_type == "Constant":
+                for a in n.attribute:
+                    if a.type == onnx.AttributeProto.TENSOR:
+                        types.setdefault(n.output[0], a.t.data_type)
+            for a in n.attribute:
+                if a.type == onnx.AttributeProto.GRAPH:
+                    collect_types(a.g)
+                elif a.type == onnx.AttributeProto.GRAPHS:
+                    for sg in a.graphs:
+                        collect_types(sg)
+
+    collect_types(model.graph)
+
+    def type_problems(n, sch, ver, where):
+        allowed = {tc.type_param_str: set(tc.allowed_type_strs) for tc in sch.type_constraints}
+        for formal_list, actual in ((sch.inputs, n.input), (sch.outputs, n.output)):
+            for i, name in enumerate(actual):
+                if not name or name not in types:
+                    continue
+                if i < len(formal_list):
+                    formal = formal_list[i]
+                elif formal_list and formal_list[-1].option == onnx.defs.OpSchema.FormalParameterOption.Variadic:
+                    formal = formal_list[-1]
+                else:
+                    continue
+                ts = TYPE_STR.get(types[name])
+                ok = allowed.get(formal.type_str)
+                if ok is None:
+                    ok = {formal.type_str} if formal.type_str.startswith("tensor(") else None
+                if ts and ok is not None and ts not in ok:
+                    probs.append(f"{where}: {n.op_type}@{sch.since_version} (resolved at opset {ver}) does not accept {ts} for '{formal.name}'")
 
     def check_nodes(nodes, imports, where):
         for n in nodes:
@@ -97,6 +143,7 @@ def schema_problems(model, declared):
             for name, attr in sch.attributes.items():
                 if attr.required and not any(a.name == name for a in n.attribute):
                     probs.append(f"{where}: {n.op_type} misses required attribute {name!r}")
+            type_problems(n, sch, ver, where)
             nin = len(n.input)
             if nin < sch.min_input or nin > sch.max_input:
                 probs.append(f"{where}: {n.op_type}@{sch.since_version} takes {sch.min_input}..{sch.max_input} inputs, got {nin}")
